@@ -174,7 +174,8 @@ Section Eval.
     | [] => [[]]
     | c :: cs' => map fst (filter (fun r : res => negb (snd r)) (eval_chain (eval c) cs' []))
     end.
-  (* evaluate_selected_variables: the root variable under the result bindings *)
+  (* evaluate_selected_variables (lazy nested loops since 32abf51; one selected expression here, so one loop): the root
+     variable evaluated under the result bindings -- its binding, or the whole domain when no condition bound it *)
   Definition select_root (e : env) : list Z :=
     flat_map (fun r : env * val => match snd r with VO o => [o] | _ => [] end) (eval_path PRoot e).
 
